@@ -29,7 +29,10 @@ type l1image struct {
 }
 
 // collectImages enumerates all crash images of all words of length <= depth from base and returns the distinct ones.
-func collectImages(c *explore.Ctx, base *explore.Base, letters []explore.Op, depth int, chain []epoch, seen map[string]bool, tornOnly bool) []*l1image {
+// keep (optional) selects the images this worker is responsible for: the others are counted as seen but not retained
+// (every worker enumerates the same list; holding every image's file system in every worker exhausted the machine's
+// memory at thorough depths).
+func collectImages(c *explore.Ctx, base *explore.Base, letters []explore.Op, depth int, chain []epoch, seen map[string]bool, tornOnly bool, keep ...func(hash string) bool) []*l1image {
 	var res []*l1image
 	visit := func(word []explore.Op, checkFrom int) bool {
 		h := runHistory(base, word)
@@ -54,6 +57,9 @@ func collectImages(c *explore.Ctx, base *explore.Base, letters []explore.Op, dep
 					return true
 				}
 				seen[k] = true
+				if len(keep) > 0 && !keep[0](k) {
+					return true
+				}
 				ch := append(append([]epoch(nil), chain...), epoch{Word: opsJSON(word[:op]), Pos: im.Pos, Variant: im.Desc})
 				res = append(res, &l1image{hash: k, fs: im.FS, chain: ch, m0: h.Models[op], m1: h.Models[op+1], only1: im.Pos == to})
 				return true
@@ -154,13 +160,11 @@ func runC04(c *explore.Ctx) {
 		if letters == nil {
 			letters = c03Letters()
 		}
-		l1 := collectImages(c, base, letters, sp.Depth, nil, seen, false)
-		c.Add("level1_distinct_images", int64(len(l1))/int64(c.NShards)+1)
+		mine := func(hash string) bool { return int(explore.Hash64(hash)%uint64(c.NShards)) == c.Shard }
+		l1 := collectImages(c, base, letters, sp.Depth, nil, seen, false, mine)
+		c.Add("level1_distinct_images", int64(len(l1)))
 		memo := recMemo{}
-		for i, im := range l1 {
-			if i%c.NShards != c.Shard {
-				continue
-			}
+		for _, im := range l1 {
 			if c.Expired() || c.NViolations() > 0 {
 				return
 			}
